@@ -37,6 +37,7 @@ func (c *SrcCase) Describe() string {
 var arithP = arithParser()
 var arithP1 = arithParserStyle(1)
 var arithP2 = arithParserStyle(2)
+var arithP3 = arithParserStyle(3)
 
 type arithOpts struct {
 	Fresh, ReaderFirst bool
@@ -59,8 +60,11 @@ func checkC05(ci interface{}, st *Stats) error {
 	if c.Style == 2 {
 		st.Class("operators are terminal.Op tokens")
 	}
+	if c.Style == 3 {
+		st.Class("left-trimmed tokens, the operand is a named Choice")
+	}
 	if c.Name != 0 {
-		st.Class("file name other than a plain word (none, ./f, d/../f, ...)")
+		st.Class("file name other than a plain word (none, ./f, d/../f, my%20f, ...)")
 	}
 	return checkArithAt(c.Src, c.Pre, st, arithOpts{c.Fresh, c.ReaderFirst, c.Style, c.Name})
 }
@@ -74,6 +78,8 @@ func checkArithAt(s string, pre int, st *Stats, o arithOpts) error {
 		p = arithP1
 	case 2:
 		p = arithP2
+	case 3:
+		p = arithP3
 	}
 	if o.Fresh {
 		p = arithParserStyle(o.Style)
@@ -222,8 +228,8 @@ func init() {
 			if rapid.IntRange(0, 4).Draw(t, "placed") == 2 {
 				pre = rapid.SampledFrom([]int{1, 2, 5, 20, 300, 65536}).Draw(t, "pre")
 			}
-			return &SrcCase{Src: s, Pre: pre, Fresh: rapid.Bool().Draw(t, "fresh"), ReaderFirst: rapid.Bool().Draw(t, "readerFirst"), Style: rapid.SampledFrom([]int{0, 0, 1, 2}).Draw(t, "style"),
-				Name: rapid.SampledFrom([]int{0, 0, 0, 1, 2, 3, 4, 5, 6}).Draw(t, "name")}
+			return &SrcCase{Src: s, Pre: pre, Fresh: rapid.Bool().Draw(t, "fresh"), ReaderFirst: rapid.Bool().Draw(t, "readerFirst"), Style: rapid.SampledFrom([]int{0, 0, 1, 2, 3}).Draw(t, "style"),
+				Name: rapid.SampledFrom([]int{0, 0, 0, 1, 2, 3, 4, 5, 6, 7, 8}).Draw(t, "name")}
 		},
 		Check: checkC05,
 	})
